@@ -55,6 +55,13 @@ def build_shape(shape, workdir, seed):
         # the two files cover different times / lead times / locations
         ds = gen.make_dataset(rng, n_inputs=2, fmt="text", prob=True, ens=True, pit=True, miss=0.1, sparse=0.0, same_dims=False,
                               thresholds=[0.0, 5.0, 10.0], quantiles=[0.1, 0.5, 0.9], vrange=(0, 12))
+        # make sure the selection is smaller than the first file: the second file lacks the first one's last lead time
+        i0, i1 = ds["inputs"]
+        common_l = [l for l in i0["leadtimes"] if l in i1["leadtimes"]]
+        if len(common_l) >= 2 and list(i0["leadtimes"]) == list(i1["leadtimes"]):
+            ldrop = gen.fnum(i1["leadtimes"][-1])
+            i1["cells"] = {k: c for k, c in i1["cells"].items() if k.split("|")[1] != ldrop}
+            i1["leadtimes"] = i1["leadtimes"][:-1]
         for inp in ds["inputs"]:
             inp["variable"] = {"name": "Precip", "units": "mm", "x0": 0.0, "x1": None}
             for c in inp["cells"].values():
